@@ -143,6 +143,8 @@ fn c08_commit_checks_stamp() {
     let has: bool = kani::any();
     let x: u64 = kani::any();
     let y: u64 = kani::any();
+    // the recording store's stamp is a counter (`offset += 1` per commit_heads)
+    kani::assume(y < u64::MAX);
     let mut store = AStore::with_chain(&[g, a]);
     store.offset = y;
     let mut prov = AProvider::with(store, g);
